@@ -3,7 +3,7 @@
 Same program generator as C01 plus shapes aimed at the pruning mechanisms (hash +- offset
 comparisons, symbolic call targets aliasing deployed accounts, value transfers with symbolic
 balances, DIV/MOD auxiliary axioms, symbolic JUMP targets), crossed with the configuration axis
-solver_timeout_branching in {0, 1 ms (default), 10 s} x loop in {1, 2, 4}.
+solver_timeout_branching in {1 ms (default), 2 s, 3 s} x loop in {1, 2, 4}.
 
 Oracles
   (a) coverage: every admissible concrete input (random, boundary, z3-guided) is admitted by the
@@ -52,8 +52,8 @@ MANIFEST = {
 
 CONFIGS = [
     {"solver_timeout_branching": 0.001, "loop": 2},
-    {"solver_timeout_branching": 0, "loop": 2},
-    {"solver_timeout_branching": 10, "loop": 1},
+    {"solver_timeout_branching": 2, "loop": 2},
+    {"solver_timeout_branching": 3, "loop": 1},
     {"solver_timeout_branching": 0.001, "loop": 4},
 ]
 
